@@ -219,10 +219,29 @@ package gtfs
 //@   loop 1 invariant csvOK(csv)
 //@   loop 1 decreases remaining(csv.csvReader)
 
+//@ pure func routeIn(p *Route, routes []Route, id string) bool = p != nil && obj(p) == obj(routes) && off(routes) <= idx(p) && idx(p) < off(routes) + len(routes) && p == &routes[idx(p) - off(routes)] && p.Id == id
+//@ pure func serviceIn(p *Service, services []Service, id string) bool = p != nil && obj(p) == obj(services) && off(services) <= idx(p) && idx(p) < off(services) + len(services) && p == &services[idx(p) - off(services)] && p.Id == id
+// a trips.txt row is accepted iff its three required cells are non-blank and route and service exist (C09)
+//@ pure func tripRowAccepted(f *csv.File, idToRoute ?, idToService ?) bool = col(f, "route_id") != "" && col(f, "service_id") != "" && col(f, "trip_id") != "" && idToRoute[col(f, "route_id")] != nil && idToService[col(f, "service_id")] != nil
+//@ pure func tripFaithful(e ScheduledTrip, f *csv.File, idToRoute ?, idToService ?, shapes ?) bool = e.Route == idToRoute[col(f, "route_id")] && e.Service == idToService[col(f, "service_id")] && e.ID == col(f, "trip_id") && e.Headsign == col(f, "trip_headsign") && e.ShortName == col(f, "trip_short_name") && e.BlockID == col(f, "block_id") && e.DirectionId == parseDirectionID_GTFSStatic(col(f, "direction_id")) && e.WheelchairAccessible == parseWheelchairBoarding(col(f, "wheelchair_accessible")) && e.BikesAllowed == parseBikesAllowed(col(f, "bikes_allowed")) && e.Shape == ((col(f, "shape_id") != "" && has(shapes, col(f, "shape_id"))) ? shapes[col(f, "shape_id")] : nil) && len(e.StopTimes) == 0 && cap(e.StopTimes) == 0
+//@ pure func tripAppended(trips []ScheduledTrip, n0 int, f *csv.File, idToRoute ?, idToService ?, shapes ?) bool = len(trips) == n0 + 1 && tripFaithful(trips[len(trips) - 1], f, idToRoute, idToService, shapes)
+
 //@ func parseScheduledTrips
-//@   props C01 C03 C05 C08 C09 C10
+//@   props C01 C03 C05 C06 C08 C09 C10
 //@   requires csvOK(csv)
-//@   loop 3 invariant csvOK(csv)
+//@   ensures [route-and-service-are-elements-named-by-the-row] forall j int :: 0 <= j && j < len(result) ==> routeIn(result[j].Route, routes, result[j].Route.Id) && serviceIn(result[j].Service, services, result[j].Service.Id)
+//@   ensures [no-stop-times-yet] forall j int :: 0 <= j && j < len(result) ==> len(result[j].StopTimes) == 0 && cap(result[j].StopTimes) == 0
+//@   loop 1 invariant idToService != nil && fresh(idToService) && (forall id string :: has(idToService, id) ==> serviceIn(idToService[id], services, id))
+//@   loop 2 invariant idToRoute != nil && fresh(idToRoute) && (forall id string :: has(idToRoute, id) ==> routeIn(idToRoute[id], routes, id))
+//@   loop 2 invariant idToService != nil && (forall id string :: has(idToService, id) ==> serviceIn(idToService[id], services, id))
+//@   loop 3 invariant csvOK(csv) && idToRoute != nil && idToService != nil && fresh(trips) && csv.csvReader == old(csv.csvReader)
+//@   loop 3 invariant [services-by-id] forall id string :: has(idToService, id) ==> serviceIn(idToService[id], services, id)
+//@   loop 3 invariant [routes-by-id] forall id string :: has(idToRoute, id) ==> routeIn(idToRoute[id], routes, id)
+//@   loop 3 invariant [references-bound] forall j int :: 0 <= j && j < len(trips) ==> routeIn(trips[j].Route, routes, trips[j].Route.Id) && serviceIn(trips[j].Service, services, trips[j].Service.Id) && len(trips[j].StopTimes) == 0 && cap(trips[j].StopTimes) == 0
+//@   loop 3 step [blank-required-cell-iff-a-missing-key-is-recorded] (col(csv, "route_id") == "" || col(csv, "service_id") == "" || col(csv, "trip_id") == "") == (len(csv.currentRow.missingKeys) > 0)
+//@   loop 3 step [accepted-row-is-appended] tripRowAccepted(csv, idToRoute, idToService) ==> tripAppended(trips, athead(3, len(trips)), csv, idToRoute, idToService, shapeIDToShape)
+//@   loop 3 step [rejected-row-is-inert] !tripRowAccepted(csv, idToRoute, idToService) ==> len(trips) == athead(3, len(trips))
+//@   loop 3 step [earlier-trips-kept] forall k int :: 0 <= k && k < athead(3, len(trips)) ==> trips[k] == athead(3, trips[k])
 //@   loop 3 decreases remaining(csv.csvReader)
 
 // parseGtfsTimeToDuration: its result is a function of the text alone (gtfsTimeOK / gtfsTimeVal). That it computes
